@@ -15,6 +15,7 @@ mod vp8predict;
 mod vp8frame;
 mod readimage;
 mod vp8recon;
+mod vp8decode;
 mod c13;
 mod c10;
 mod c11;
@@ -61,6 +62,7 @@ fn main() {
         "vp8frame" => vp8frame::run(tier, seed, out, extra),
         "readimage" => readimage::run(tier, seed, out, extra),
         "vp8recon" => vp8recon::run(tier, seed, out, extra),
+        "vp8decode" => vp8decode::run(tier, seed, out, extra),
         "c13" => c13::run(tier, seed, out, extra),
         "c10" => c10::run(tier, seed, out, extra),
         "c11" => c11::run(tier, seed, out, extra),
